@@ -73,6 +73,8 @@ def extract(spec, text):
                 iter_ranks[tensor_of[recv]] = list(ranks_of[recv])
             elif meth == "getRoot":
                 pass   # the output
+            elif meth == "swizzleRanks" and loops is not None:
+                pass   # footer swizzle of the output
             else:
                 raise NotANest("header statement " + meth)
         elif isinstance(s, ast.Assign) and isinstance(s.value, ast.Call) and isinstance(s.value.func, ast.Name) and s.value.func.id == "Tensor":
